@@ -1600,6 +1600,7 @@ private:
       // Since the error has already been handled in _populate_formatted_log_message,
       // there is no additional action required here.
     }
+    QUILL_CATCH_ALL() {}
 #endif
   }
 
@@ -1629,6 +1630,18 @@ private:
         fmtquill::format(R"([Could not format log statement. message: "{}", location: "{}", error: "{}"])",
                          transit_event->macro_metadata->message_format(),
                          transit_event->macro_metadata->short_source_location(), e.what());
+
+      transit_event->formatted_msg->append(error);
+      _options.error_notifier(error);
+    }
+    QUILL_CATCH_ALL()
+    {
+      // A user defined formatter can throw anything. If the exception escapes, the statement is
+      // never removed from the frontend queue and is read and reported again on every iteration
+      transit_event->formatted_msg->clear();
+      std::string const error = fmtquill::format(
+        R"([Could not format log statement. message: "{}", location: "{}", error: "Caught unhandled exception."])",
+        transit_event->macro_metadata->message_format(), transit_event->macro_metadata->short_source_location());
 
       transit_event->formatted_msg->append(error);
       _options.error_notifier(error);
